@@ -272,12 +272,19 @@ def corruptions():
             ('move_pc', move_pc)]
 
 
-def good_prefix(ctx, trace_path, diffs, limit=400):
-    """A sample of accepted records (for the binding self-test)."""
+def good_prefix(ctx, trace_path, diffs, per_format=40):
+    """A sample of accepted records, stratified by format (for the binding self-test)."""
     recs = read_ndjson(trace_path)
-    good = [r for i, r in enumerate(recs, 1) if i not in diffs and r.get('e') == 'X' and 'panic' not in r]
-    step = max(1, len(good) // limit)
-    sel = good[::step][:limit]
+    by = {}
+    for i, r in enumerate(recs, 1):
+        if i not in diffs and r.get('e') == 'X' and 'panic' not in r:
+            partial = any(x != 65535 for x in r['pre']['exec']) and any(r['pre']['exec'])
+            by.setdefault((r['f'], partial), []).append(r)
+    sel = []
+    for k in sorted(by):
+        g = by[k]
+        step = max(1, len(g) // per_format)
+        sel += g[::step][:per_format]
     p = os.path.join(ctx.scratch, 'good_sample.ndjson')
     vlib.write_ndjson(p, sel)
     return p
@@ -296,11 +303,12 @@ def selftest_binding(ctx, ts, trace_path, corrs):
         bad = fn(copy.deepcopy(recs), rng)
         if bad is None:
             continue
+        bad = bad[-4:]          # the corrupted record (last) preceded by a few accepted ones
         p = os.path.join(ctx.scratch, 'selftest_%s.ndjson' % name)
         vlib.write_ndjson(p, bad)
         jobs.append((name, p))
-    if not jobs:
-        raise vlib.Infra('binding self-test: no corruption applicable')
+    if len(jobs) < len(corrs):
+        raise vlib.Infra('binding self-test: only %d of %d corruptions applicable to the sample' % (len(jobs), len(corrs)))
 
     def one(job):
         name, p = job
